@@ -155,6 +155,51 @@ def crosstype_cases():
     return cases
 
 
+def hook_cases(rng, tier, n_classes):
+    """classes with a __validate__ hook (raises when a listed field holds a listed value - the same predicate is the
+    model's hookOk oracle): keyword arguments that establish a hooked value or not, and entry-point chains whose
+    overrides try to establish one.  Every entry point that yields an instance must have run the hook."""
+    from . import mutate as M
+    cases = []
+    for ci in range(n_classes):
+        dg = gen.DeclGen(rng, max_depth=1, allow=["integer", "number", "float", "string", "boolean", "enumLit", "enumCls", "seqOf",
+                                                  "tupleOf", "mapOf", "seqAny"])
+        vg = gen.ValGen(rng)
+        cls = dg.class_decl(0, n_fields=rng.choice([1, 2, 3]))
+        cls["name"] = f"H{ci}"
+        fix_accepts(cls)
+        fields = [(nm, fd) for nm, fd in cls["fields"] if M.hookable(fd)]
+        if not fields:
+            continue
+        kws = [vg.valid_kw(cls) for _ in range(3)]
+        kws = [kw for kw in kws if kw is not gen.NOVALUE]
+        if not kws:
+            continue
+        # hooked values: some taken from the arguments themselves (the constructor must refuse), some other valid values
+        pool = []
+        for kw in kws:
+            for k, v in kw:
+                if v is not None and any(k == nm for nm, _ in fields):
+                    pool.append([k, v])
+        for nm, fd in fields:
+            v = vg.valid(fd)
+            if v is not gen.NOVALUE and v is not None:
+                pool.append([nm, v])
+        if not pool:
+            continue
+        hooks = rng.sample(pool, min(len(pool), rng.randint(1, 3)))
+        for kw in kws:
+            chain = gen_chain(rng, vg, cls, rng.randint(1, 3 if tier == "quick" else 5))
+            # overrides that try to establish a hooked value
+            for op in chain:
+                if op["op"] in ("shallowClone", "fromOtherClass", "fromMapping") and rng.random() < 0.6:
+                    op["kw"] = [list(rng.choice(hooks))]
+            case = {"suite": "construct", "cls": cls, "kw": kw, "stream": "hook", "hook": hooks, "chain": chain, "re": None}
+            case["re"] = gen.re_table(cls, kw, chain, [h[1] for h in hooks])
+            cases.append(case)
+    return cases
+
+
 def default_cases(rng, tier, n_classes):
     """classes whose non-required fields carry DEFAULTS - valid ones, boundary neighbours of the field's
     constraints and ==-equal values of another type (a falsy default is not checked when the class is defined:
@@ -261,6 +306,9 @@ def run_impl(case):
     if back != want:
         return {"abstraction_mismatch": {"dumped": back, "declared": want}}
     cls_actual = fix_accepts(rename_inline_decl(dump.dump_class(cls, ctx)))
+    if case.get("hook"):
+        from . import mutate as M
+        M.install_hook(cls, case["hook"], ctx)
     try:
         kw = {k: dump.load_value(v, ctx) for k, v in case["kw"]}
     except Exception as e:
@@ -306,6 +354,8 @@ def rename_inline_decl(d):
 
 def line(case, impl):
     l = {"suite": "construct", "cls": impl.get("cls_actual", case["cls"]), "kw": impl.get("kw_actual", case["kw"]), "re": case.get("re", [])}
+    if case.get("hook"):
+        l["hook"] = case["hook"]
     final = impl.get("chain", {}).get("ok") if case.get("chain") else None
     if final is None:
         final = impl.get("ok")
